@@ -45,6 +45,13 @@ func (p *Program) userFieldSort(name string) (string, bool) {
 
 func (v *Verifier) addSweeps() {
 	switch v.Prop {
+	case "C01", "C03", "C04", "C05", "C06", "C12", "C13", "C16", "C18", "C19":
+		// the frame of the event summary, checked against the handlers the library registers
+		v.coveredPred = func(string) bool { return false }
+		v.addEffectSweep("handlers_within_event_frame", v.handlerFrameSites)
+		v.coveredPred = nil
+	}
+	switch v.Prop {
 	case "C20":
 		v.addFrameObligations()
 	case "C01":
